@@ -521,7 +521,8 @@ func (fx *fnExec) checkPost(e *Exit) {
 			s.Assumed = appendUnique(s.Assumed, fmt.Sprintf("%s/post:%s is assumed by callers but not proved (%s)", c.Func, label, reason))
 			continue
 		}
-		s.oblig("post", label+suffix, c.tagsFor(en), final.reach, fx.evalBool(en.E, env), fx.posOf(e.Pos), en.Src)
+		pob := s.oblig("post", label+suffix, c.tagsFor(en), final.reach, fx.evalBool(en.E, env), fx.posOf(e.Pos), en.Src)
+		pob.Explicit = len(en.Tags) > 0
 	}
 }
 
